@@ -98,6 +98,14 @@ type Differential struct {
 	Envs        func(lineage *statecache.StateCache, shared *statecache.StateCache) []*Env
 	WarmLineage bool
 	KeyPrefix   string // violation key prefix, e.g. "C07:chain"
+	// SharedPasses > 1 walks the whole tree again with the SAME shared cache: in the later passes a
+	// block is executed after all of its siblings and cousins (a fork order a depth-first walk
+	// cannot produce in its first pass).
+	SharedPasses int
+	// ShardDepth is the tree level at which the work is split over the worker processes (default 0).
+	// With 1, every worker executes all first-level blocks (so that its shared cache has seen every
+	// sibling fork) and the subtrees below them are split.
+	ShardDepth int
 }
 
 type diffOut struct {
@@ -205,14 +213,30 @@ func (d *Differential) worker() {
 	deadline := time.Now().Add(e.Budget)
 	so := diffOut{Outcomes: map[string]int64{}, Distinct: map[string]int64{}}
 	shared := statecache.NewStateCache() // one cache that sees every block this worker executes (forks included)
+	// root scripts are executed into the shared cache too (a node's cache has seen its whole chain)
+	mkRoot := func(script []Action, name string) *SNode {
+		g := e.W.GenesisNode()
+		cur := &SNode{N: g, Path: []string{name}}
+		for i := range script {
+			p, o := e.applyEnv(cur, &script[i], &Env{Cache: shared}, "")
+			if p == nil || o.Err != "" || o.Status != transaction.TxnSuccess {
+				ev.Fatal("root script %s step %d (%s) failed: %v", name, i, script[i].Name, o)
+			}
+			cur = p
+		}
+		cur.Path = []string{name}
+		cur.Depth = 0
+		return cur
+	}
 	var roots []*SNode
 	if len(e.Roots) == 0 {
-		roots = append(roots, e.root(nil, "genesis"))
+		roots = append(roots, mkRoot(nil, "genesis"))
 	}
 	for i, r := range e.Roots {
-		roots = append(roots, e.root(r, fmt.Sprintf("root%d", i)))
+		roots = append(roots, mkRoot(r, fmt.Sprintf("root%d", i)))
 	}
 	counter := 0
+	pass := 0
 	capped := false
 	// rec explores all extensions of the path ending in s; lineage has seen exactly this path.
 	// Because a StateCache cannot be cloned, the lineage of a child is rebuilt by re-executing the
@@ -234,12 +258,13 @@ func (d *Differential) worker() {
 		}
 		for ai := range e.Actions {
 			a := &e.Actions[ai]
-			if depth == 0 {
+			if depth == d.ShardDepth {
 				counter++
 				if counter%n != idx {
 					continue
 				}
 			}
+			report := depth >= d.ShardDepth || idx == 0 // shared levels are reported by worker 0 only
 			if time.Now().After(deadline) {
 				capped = true
 				return
@@ -252,7 +277,9 @@ func (d *Differential) worker() {
 			if ref == nil {
 				continue
 			}
-			so.Steps++
+			if report {
+				so.Steps++
+			}
 			so.Execs++
 			oc := "ok"
 			if ro.Err != "" {
@@ -260,20 +287,25 @@ func (d *Differential) worker() {
 			} else if ro.Status == transaction.TxnError {
 				oc = "charged-failure"
 			}
-			so.Outcomes[a.Name+":"+oc]++
-			so.Distinct[ro.Root+"|"+ro.Output]++
+			if report {
+				so.Outcomes[a.Name+":"+oc]++
+				so.Distinct[ro.Root+"|"+ro.Output]++
+			}
 			var lineage *statecache.StateCache
-			if d.WarmLineage {
+			if d.WarmLineage && pass == 0 {
 				_, lineage = rebuild(rootOf, acts)
 				so.Execs += int64(len(acts))
 			}
 			for _, env := range d.Envs(lineage, shared) {
+				if pass > 0 && env.Cache != shared {
+					continue
+				}
 				_, ao := e.applyEnv(s, a, env, "#"+env.Name)
 				so.Execs++
 				if ao == nil {
 					continue
 				}
-				if *ao != *ro {
+				if *ao != *ro && report {
 					field := "root"
 					switch {
 					case ao.Err != ro.Err:
@@ -290,7 +322,7 @@ func (d *Differential) worker() {
 						field = "events"
 					}
 					so.Violations = append(so.Violations, vio{
-						Key:  fmt.Sprintf("%s:%s:%s-differs:%s", d.KeyPrefix, envClass(env), field, stripArgs(a.Name)),
+						Key:  fmt.Sprintf("%s:%s%s:%s-differs:%s", d.KeyPrefix, envClass(env), map[bool]string{false: "", true: "-after-all-forks"}[pass > 0], field, stripArgs(a.Name)),
 						What: fmt.Sprintf("after %v action %s: reference {%s} vs %s {%s}", s.Path, a.Name, ro, env.Name, ao),
 						Path: ref.Path})
 				}
@@ -306,9 +338,16 @@ func (d *Differential) worker() {
 			so.Paths++
 		}
 	}
-	for _, r := range roots {
-		rootOf = r
-		rec(r, nil, 0)
+	passes := d.SharedPasses
+	if passes < 1 {
+		passes = 1
+	}
+	for pass = 0; pass < passes; pass++ {
+		counter = 0
+		for _, r := range roots {
+			rootOf = r
+			rec(r, nil, 0)
+		}
 	}
 	if capped {
 		so.Capped = fmt.Sprintf("time budget %v hit", e.Budget)
